@@ -341,6 +341,23 @@ func run(ci any, r *mon.Rec) {
 				r.Violate(c, "fault-reported-as-success", mon.Attrs{"client": "serial", "fc": int(c.FC), "fault": "drip"}, fmt.Sprintf("serial client fc%d: success after %d slow reads although the reply (%d bytes at 25 ms each) cannot arrive within the read timeout %v", c.FC, slowReads, L, opt.ReadTimeout))
 			}
 		}
+		if c.Client != clientx.TCP && c.FC == 6 {
+			// a write-single-register exchange over RTU whose written value happens to equal the CRC of unit, function and
+			// address: the first six bytes of the (eight-byte) echo look like a complete CRC-consistent frame. The line
+			// goes silent after exactly those six bytes: that is a stall, not a reply
+			u, ad := uint8(1+rng.Intn(200)), uint16(rng.Intn(65536))
+			w := specref.CRC([]byte{u, 6, byte(ad >> 8), byte(ad)})
+			q6 := specref.Req{FC: 6, Unit: u, Addr: ad, Value: uint16(byte(w))<<8 | uint16(w>>8)}
+			if rq6, err := libx.NewRequest(specref.RTU, q6); err == nil {
+				echo := rq6.Bytes()
+				out := clientx.Run(c.Client, rq6, xport.Script{Reply: echo, Steps: []xport.ReadStep{{N: 6}}, Tail: "deadline"}, opt)
+				r.Eval(1)
+				r.Cover("fault", "stall-after-a-crc-consistent-prefix")
+				if out.Err == nil && !out.Hung && out.Panic == "" {
+					r.Violate(c, "fault-reported-as-success", mon.Attrs{"client": clientx.KindName(c.Client), "fc": 6, "fault": "stall", "crc_consistent_prefix": true}, fmt.Sprintf("FC6 over RTU, value = CRC of the first four bytes: reply % x stalled after 6 of its 8 bytes, the call returned %T without error", echo, out.Resp))
+				}
+			}
+		}
 		// the connection dies right after the request was written (closed locally, cable pulled): the deadline setter fails
 		// before the read does - still an I/O failure, reported as the client error wrapping the cause
 		if c.Client != clientx.Serial {
